@@ -226,6 +226,11 @@ def _borrowed(an: Analysis) -> None:
     from . import c02
 
     borrow(an, c02.check, {"C02.3": "C11.6", "C02.7": "C11.7", "C02.1": "C11.8"})
+    from . import c03
+
+    # C03.6: a scope's state is resolved where the scope is *entered*: a stream's scope is built where the stream is created and
+    # entered where it is consumed - resolved at construction, the creator's state would be installed over the consumer's between items
+    borrow(an, c03.check, {"C03.6": "C11.9"})
 
 
 def _anc(n: ast.AST):
